@@ -278,7 +278,7 @@ def avg_drive(cfg, rng, maxlen, concrete=None):
             try:
                 ret = l.ask(op[1], tell_pending=op[2])
                 ret = ([int(p) for p in ret[0]], [float(x) for x in ret[1]])
-                out = (ret[0], ret[1][0])
+                out = (ret[0], ret[1][0] if ret[1] else 0.0)     # ask(0) -> ([], []): the model answers Asked [] 0
                 if any(not same_float(x, ret[1][0]) for x in ret[1]):
                     orc.err("ask", "loss improvements differ")
             except ZeroDivisionError:
